@@ -64,6 +64,7 @@ Inv ==
 Unique == I!ClientTypeFormat(s) =>
             \A n \in Seqs, m \in Seqs :
                /\ (I!FormatClient(s, n) = I!FormatClient(s, m) => n = m)
+               /\ Witness("type-ending-in-number")
                /\ LET longer == I!FormatClient(s, n) IN
                   I!ParseClient(I!FormatClient(longer, m)) = [ok |-> TRUE, t |-> longer, n |-> m]
 =============================================================================
